@@ -36,6 +36,8 @@ type syncRun struct {
 	p2pCount      int
 	// orderlyOnErr: when the node halts with a fatal error the driver does what FullNode.Run does (orderly shutdown)
 	orderlyOnErr bool
+	// quietObs: no observation after every single delivery (long chains)
+	quietObs bool
 	cancel  context.CancelFunc
 	ctx     context.Context
 	wg      *sync.WaitGroup
@@ -358,7 +360,9 @@ func (s *syncRun) deliver(kind string, h uint64, via string) {
 		}
 		s.full.M = nil
 	}
-	s.full.Obs("deliver")
+	if !s.quietObs {
+		s.full.Obs("deliver")
+	}
 }
 
 func (s *syncRun) hasCrashed() bool { s.mu.Lock(); defer s.mu.Unlock(); return s.crashed }
@@ -671,6 +675,40 @@ func RunSyncHandOverStop(c *Ctx) {
 					c.Count("handover", 1)
 				})
 			}
+		}
+	}
+}
+
+// RunSyncFarAhead: a long chain (several hundred blocks, every block with its own transactions) whose LAST block's
+// data reaches the node first - while its chain height is still far below - followed by everything else in order:
+// whatever the node does with an event that far ahead of its chain, it must end at the proposer's height.
+func RunSyncFarAhead(c *Ctx) {
+	for _, n := range []int{300} {
+		for _, via := range []string{"chan", "da"} {
+			synctest.Run(func() {
+				shape := make([][]string, n)
+				for i := range shape {
+					if i%7 != 3 {
+						shape[i] = []string{fmt.Sprintf("t%d", i)}
+					}
+				}
+				shape[n-1] = []string{"last"}
+				s := newSyncRun(c, fmt.Sprintf("farahead/n%d/%s", n, via), 1, shape, world.F{"src": "farahead", "shape": "long"})
+				defer s.finish()
+				if s.startFull() != nil {
+					return
+				}
+				s.quietObs = true
+				s.deliver("data", s.top, via)
+				for h := s.ih; h <= s.top; h++ {
+					s.deliver("hdr", h, via)
+					if h != s.top {
+						s.deliver("data", h, via)
+					}
+				}
+				s.settle()
+				c.Count("farahead", 1)
+			})
 		}
 	}
 }
